@@ -3,6 +3,8 @@ import PsV.Proofs.FitDiffs
 import PsV.Proofs.FitPosDef
 import PsV.Proofs.NormalEqExists
 import PsV.Proofs.PolyReproNd
+import PsV.Proofs.PolyReproGen
+import PsV.Proofs.ElimPosDef
 /-!
 # C09 — the unconstrained fit minimises the penalised weighted least-squares objective
 
@@ -11,7 +13,9 @@ Property theorems only; helper lemmas and the statement-level definitions (`Mf`,
 live in `PsV/Proofs/FitQuad.lean`, the linear algebra of the normal equations in
 `PsV/Proofs/NormalEq.lean` / `NormalEqExists.lean`, positive definiteness in `PsV/Proofs/FitPosDef.lean`
 (`fitVal P v r = (Bv)_r`), polynomial data in `PsV/Proofs/PolyRepro1d.lean`, `TensorCoef.lean`, `PolyReproNd.lean`
-(`polyVal`, `polyCoef`, `PolyDegOK`, `InSupport`, `KnotsSorted`, `PolyData`, the example problem `polyP`).  The carrier is any ordered field whose `Arith` bundle is lawful; `Rat` with
+(`polyVal`, `polyCoef`, `PolyDegOK`, `InSupport`, `KnotsSorted`, `PolyData`, the example problem `polyP`), `Marsden1d.lean`,
+`PolyReproGen.lean` (`dualCoef`, `polyCoefGSum`, `polyValGSum`, `PolyDegOKG`, `PolyDataG`, the example `polyP2`); the
+elimination certificate in `PsV/Proofs/ElimPosDef.lean`.  The carrier is any ordered field whose `Arith` bundle is lawful; `Rat` with
 the instance the compiled driver executes is one.
 
 Notation: `N = P.ncoef`, `R = P.rows.size`, `Mf P i j = (specM P).get i j`, `rf P i = (specR P).getD i 0`.
@@ -174,6 +178,18 @@ example : (∀ r < exP.rows.size, 0 ≤ rowW exP r) ∧ (∀ l ∈ exP.smooth, 0
     · linarith
     · linarith
 
+/-- **The driver's verdict is a certificate.**  `psvdriver C09` classifies a generated problem as well-posed when the exact
+elimination `specFit P = solveSPD (specM P) (specR P)` (no pivoting, stops at the first non-positive pivot) succeeds.
+If it succeeds the normal matrix IS positive definite (completing the square along the Schur complements), so every
+theorem of this file that assumes `PosDef` applies to every instance the check judges. -/
+theorem specFit_certifies_posDef (P : FitProblem α) (c : Array α) (h : specFit P = some c) :
+    PosDef P.ncoef (Mf P) := specFit_posDef P c h
+
+/-- Non-vacuity: the elimination succeeds on `exP`. -/
+example : ∃ c, specFit exP = some c := by
+  have h : (specFit exP).isSome = true := by decide +kernel
+  exact Option.isSome_iff_exists.1 h
+
 /-! ## 4. data of weight zero are irrelevant -/
 
 /-- Dropping the data rows with `w = 0` changes neither the normal matrix, nor the right-hand side, nor
@@ -255,9 +271,9 @@ unique minimiser when `M` is positive definite, by `C09_fit_is_minimiser`).
 Missing for the polynomial statement (Marsden's identity): (a) a polynomial of degree `< p_d ≤ order_d`
 in every variable has a B-spline coefficient vector `c0` on the knots of `P` (on the fully supported range),
 and (b) the `p_d`-th derivative coefficients of that `c0` are all zero.
-Both are discharged below for degree ≤ 1 in each variable (`poly_below_penalty_reproduced`,
-`poly_sum_below_penalty_reproduced`, `constant_data_reproduced`); degrees 2 and 3 (penalty orders 3, 4) still rest on
-this theorem with its hypothesis, and on the numerical test of the check. -/
+Both are discharged below: first for degree ≤ 1 in each variable with the Greville abscissae
+(`poly_below_penalty_reproduced`, `poly_sum_below_penalty_reproduced`, `constant_data_reproduced`), then for every degree
+(`poly_any_degree_below_penalty_reproduced`, Marsden's identity).  This theorem is kept: the full ones are its corollaries. -/
 theorem poly_below_penalty_reproduced_partial (P : FitProblem α) (c0 : Nat → α)
     (hz : ∀ r < P.rows.size, rowW P r ≠ 0 →
       rowZ P r = ∑ i ∈ Finset.range P.ncoef, designEntry P r i * c0 i)
@@ -355,6 +371,46 @@ example : exP.dims ≠ [] ∧ StridesRowMajor exP.dims ∧ exP.coords.length = e
   intro p hp
   have : p = 1 := by simpa [exP] using hp
   omega
+
+/-- **Polynomial data of degree below the penalty order are reproduced for every smoothing strength — any degree.**
+The data are values of `Σ_terms Π_d (Σ_j a_{d,j} x_d^j)` (`terms`: per term and dimension the list of monomial
+coefficients; every polynomial is such a sum), each factor of degree `< p_d` and `≤ order_d` (`PolyDegOKG`, which also asks
+that the knot spans the derivative recurrence divides by are non-degenerate: `knots[m+q+1] ≠ knots[m+order+1]` for
+`q < p_d`, i.e. interior knots of multiplicity at most `order_d − p_d + 1`), at points of the fully supported range.
+Then the explicit coefficient vector given by Marsden's identity, `c_i = Σ_terms Π_d Σ_j a_{d,j}·e_j(t_{i_d+1..i_d+order})/C(order, j)`
+(`polyCoefGSum`), solves the normal equations whatever `P.smooth` is.  This is the full statement asked for beside
+`poly_below_penalty_reproduced_partial`: Marsden's identity (`Bind_sum_monomial`) and the vanishing of the `p`-th derivative
+coefficients of the dual coefficients of `x^j`, `j < p` (`derivCoef_monomial`), are theorems. -/
+theorem poly_any_degree_below_penalty_reproduced (P : FitProblem α) (terms : List (List (List α)))
+    (hst : StridesRowMajor P.dims) (hc : P.coords.length = P.dims.length)
+    (hp : P.porder.length = P.dims.length) (hsorted : KnotsSorted P.dims)
+    (hterms : ∀ ass ∈ terms, ass.length = P.dims.length ∧ PolyDegOKG P.dims ass P.porder)
+    (hz : PolyDataG P terms) :
+    ∀ i < P.ncoef, mulVec P.ncoef (Mf P) (polyCoefGSum P.dims terms) i = rf P i :=
+  poly_below_penalty_reproduced_partial P (polyCoefGSum P.dims terms)
+    (polyDataG_generated P terms hst hc hp hsorted hterms hz)
+    (derivVanishes_polyCoefGSum P.dims terms P.porder P.ncoef hst (fun ass h => (hterms ass h).2))
+
+/-- … and it is the unique minimiser when the normal matrix is positive definite. -/
+theorem poly_any_degree_unique_minimiser (P : FitProblem α) (terms : List (List (List α)))
+    (hst : StridesRowMajor P.dims) (hc : P.coords.length = P.dims.length)
+    (hp : P.porder.length = P.dims.length) (hsorted : KnotsSorted P.dims)
+    (hterms : ∀ ass ∈ terms, ass.length = P.dims.length ∧ PolyDegOKG P.dims ass P.porder)
+    (hz : PolyDataG P terms) (hP : PosDef P.ncoef (Mf P)) :
+    (∀ c' : Nat → α, objective P (polyCoefGSum P.dims terms) ≤ objective P c')
+      ∧ ∀ c' : Nat → α, objective P c' ≤ objective P (polyCoefGSum P.dims terms) →
+          ∀ i < P.ncoef, c' i = polyCoefGSum P.dims terms i :=
+  have hN := poly_any_degree_below_penalty_reproduced P terms hst hc hp hsorted hterms hz
+  ⟨((C09_fit_is_minimiser P _ hP).1).1 hN, (C09_fit_is_minimiser P _ hP).2 hN⟩
+
+/-- Non-vacuity: `polyP2` — orders 3 × 1, 5 × 2 coefficients, penalty orders (3, 2), `λ = (2, 5)`, four data on
+`x²(1 − y) + 3` inside the fully supported range `[3,5) × [1,2)` plus one datum of weight 0 off it — satisfies every
+hypothesis. -/
+example : StridesRowMajor polyP2.dims ∧ polyP2.coords.length = polyP2.dims.length
+    ∧ polyP2.porder.length = polyP2.dims.length ∧ KnotsSorted polyP2.dims
+    ∧ (∀ ass ∈ polyTerms2, ass.length = polyP2.dims.length ∧ PolyDegOKG polyP2.dims ass polyP2.porder)
+    ∧ PolyDataG polyP2 polyTerms2 :=
+  ⟨polyP2_strides, rfl, rfl, polyP2_sorted, polyP2_terms, polyP2_data⟩
 
 /-- `DerivVanishes` written out for one more dimension. -/
 theorem derivVanishes_cons (d : Dim α) (ds : List (Dim α)) (p : Nat) (ps : List Nat) (N : Nat)
